@@ -91,7 +91,9 @@ def _data(draw, cfg):
         props = draw(st.lists(st.fixed_dictionaries({
             "identifier": st.sampled_from(["INIT", "LOC", "WIDTH", "IS_INV", "box_type"]),
             "value": st.one_of(st.integers(0, 9), st.booleans(),
-                               st.sampled_from(["8'h01", "SLICE_X0Y0", "", "a b"]))}),
+                               st.sampled_from(["8'h01", "SLICE_X0Y0", "", "a b"]),
+                               # integers past one and two digits, 16, 32 and 64 bits; negative
+                               st.sampled_from([10, 255, 65536, 2 ** 31, 2 ** 40, -1, -2 ** 31 - 5]))}),
             min_size=1, max_size=3, unique_by=lambda d: d["identifier"]))
         for pr in props:
             if draw(st.integers(0, 3)) == 0:
